@@ -255,6 +255,14 @@ func (m *Machine) choice(n int, what string) int {
 		if d.kind != dChoice {
 			m.replayMismatch(ex, dChoice, what)
 		}
+		if w := strings.TrimPrefix(d.what, "imported:"); (w != what && w != "") || d.alt >= n {
+			if os.Getenv("GOSYM_DEBUG") != "" {
+				for i := 0; i <= ex.pos; i++ {
+					fmt.Fprintf(os.Stderr, "  dec %d: kind=%d alt=%d/%d %s\n", i, ex.decs[i].kind, ex.decs[i].alt, ex.decs[i].nalts, ex.decs[i].what)
+				}
+			}
+			panic(fmt.Sprintf("internal: non-deterministic replay at choice %d: recorded %q alt %d, now %q with %d alternatives", ex.pos, d.what, d.alt, what, n))
+		}
 		if ex.pos >= ex.asserted {
 			m.pushLit(ex, nil)
 		}
@@ -665,7 +673,7 @@ func (m *Machine) donate(ex *explorer) []PrefixEntry {
 func exportPrefix(decs []decision) []PrefixEntry {
 	out := make([]PrefixEntry, len(decs))
 	for i, d := range decs {
-		out[i] = PrefixEntry{Kind: uint8(d.kind), Alt: d.alt, NAlts: d.nalts, Forced: true, Val: d.val, What: d.what}
+		out[i] = PrefixEntry{Kind: uint8(d.kind), Alt: d.alt, NAlts: d.nalts, Forced: true, Val: d.val, What: strings.TrimPrefix(d.what, "imported:")}
 		if d.kind == dChoice {
 			// the receiver explores only this alternative
 			out[i].NAlts = d.alt + 1
